@@ -248,10 +248,12 @@ def body_sidecars_nonreal_fallback(mask: int, umn: bool) -> bool:
 def obligations(tier, seed):
     n = 2 if tier == "quick" else 3
     obs = [
-        Ob(id="C15.1-infoblock", body="harness.C15:body_infoblock", sig="t: int, name: str, sel: str, remote: bool, port: int, gp: bool",
-           pre=["0 <= t <= 5", "len(name) <= %d" % n, "1 <= len(sel) <= %d" % n, "0 <= port <= 65535"], timeout=300 if tier == "quick" else 1200,
-           desc="+INFO line == '+INFO: ' + plain Gopher menu line for symbolic entries (local and remote, Gopher+ capable or not)",
-           bounds="|name|, |selector| <= %d (all characters), 6 item types, any port" % n, functions=["GopherPlusProtocol.getinfoblock", "GopherProtocol.renderobjinfo"]),
+        Ob(id="C15.1-infoblock[remote=%d,gopherplus=%d]" % (rm, gpp), body="harness.C15:body_infoblock", sig="t: int, name: str, sel: str, remote: bool, port: int, gp: bool",
+           pre=["remote == %s" % bool(rm), "gp == %s" % bool(gpp), "0 <= t <= 5", "len(name) <= %d" % n, "1 <= len(sel) <= %d" % n, "0 <= port <= 65535"], timeout=300 if tier == "quick" else 1200,
+           desc="+INFO line == '+INFO: ' + plain Gopher menu line for symbolic entries (%s, Gopher+ capable or not)" % ("remote" if rm else "local"),
+           bounds="|name|, |selector| <= %d (all characters), 6 item types, any port" % n, functions=["GopherPlusProtocol.getinfoblock", "GopherProtocol.renderobjinfo"])
+        for rm in (0, 1) for gpp in (0, 1)
+    ] + [
         Ob(id="C15.4-plus-length", body="harness.C15:body_plus_length", sig="kind: int, isdir: bool, nchunks: int", pre=["0 <= kind <= 1", "0 <= nchunks <= 3"], timeout=120,
            desc="+ request: exactly one header line `+<entry size>` (a tagged size object) or the unknown-length marker, then the body as written by the handler",
            bounds="size known/unknown x document/menu x 0..3 body chunks (symbolic)", functions=["GopherPlusProtocol.handle"]),
@@ -263,7 +265,8 @@ def obligations(tier, seed):
         for part in ([None] if (tier == "quick" or not both) else [(hm, lg) for hm in (False, True) for lg in (False, True)]):
             obs.append(Ob(id="C15.2-allblocks[mask=%d%s]" % (mask, "" if part is None else ",mime=%d,lang=%d" % part), body="harness.C15:body_allblocks", sig="mask: int, a: str, k: str, size: int, hasmime: bool, lang: bool",
                           pre=["mask == %d" % mask, "len(a) <= %d" % n, "len(k) <= %d" % (0 if tier == "quick" else (1 if both else 2)), "all(c in 'a +:' + chr(10) for c in a + k)", "-1 <= size <= 10**7"]
-                              + ([] if part is None else ["hasmime == %s" % part[0], "lang == %s" % part[1], "size == 5000"]),
+                              + ([] if part is None else ["hasmime == %s" % part[0], "lang == %s" % part[1], "size == 5000"])
+                              + (["size == -1 or size == 5000"] if (tier == "quick" and mask == 15) else []),
                           timeout=300 if tier == "quick" else 1200,
                           desc="getallblocks: +INFO, +ADMIN, +VIEWS (MIME type, language, size in k) then one block per attribute in insertion order, lines blank-prefixed",
                           bounds="attribute subset %d, texts |a| <= %d over {a SPACE + : LF}, %s" % (mask, n, "any size or unknown size" if part is None else "size 5000 (both texts symbolic; the size varies in the other subsets)"), functions=["GopherPlusProtocol.getallblocks/getblock/getadminblock/getviewsblock"]))
